@@ -36,15 +36,17 @@ def interp_array_to_approx_dt(values, dt, target_dt=0.01, even=True):
         New time step of interpolate time series
     """
     factor = dt / target_dt
+    m = None
     if factor == 1:
         pass
     elif factor > 1:
         factor = int(np.ceil(factor))
     else:
-        factor = 1 / np.floor(1 / factor)
+        m = np.floor(1 / factor)
+        factor = 1 / m
     t_int = np.arange(len(values))
-    if factor < 1:  # n / m is correctly rounded; (1 / m) * n can fall just below an integer (m = 49, 98, ...)
-        new_npts = len(values) / np.floor(1 / factor)
+    if m is not None:  # n / m is correctly rounded; (1 / m) * n can fall just below an integer (m = 49, 98, ...)
+        new_npts = len(values) / m
     else:
         new_npts = factor * len(values)
     if even:
@@ -101,14 +103,16 @@ def resample_to_approx_dt(asig, target_dt=0.01, even=True):
     """
     from scipy.signal import resample
     factor = asig.dt / target_dt
+    m = None
     if factor == 1:
         pass
     elif factor > 1:
         factor = int(np.ceil(factor))
     else:
-        factor = 1 / np.floor(1 / factor)
-    if factor < 1:  # n / m is correctly rounded; (1 / m) * n can fall just below an integer (m = 49, 98, ...)
-        new_npts = int(asig.npts / np.floor(1 / factor))
+        m = np.floor(1 / factor)
+        factor = 1 / m
+    if m is not None:  # n / m is correctly rounded; (1 / m) * n can fall just below an integer (m = 49, 98, ...)
+        new_npts = int(asig.npts / m)
     else:
         new_npts = int(factor * asig.npts)
     acc_interp = resample(asig.values, new_npts)
